@@ -22,6 +22,11 @@
  *   resize H hskip vskip hsize vsize | sresize H off size
  *   map H P hoff voff hsize vsize r|w | smap H P off size r|w
  *   fill H K | check H | peek H P x y | size H | end (closes an execution)
+ *   poke H P x y K                  write one cell through its own write mapping
+ *   view H SRC P                    block view of plane P of buffer SRC
+ *                                   (ubuf_block_mem_alloc_from_pic / _from_sound)
+ *   bread H | bpoke H I V           read a view / write octet I of a view
+ *   fmts                            the table of uref_pic_flow_formats.h as compiled
  */
 #include "upipe/ubase.h"
 #include "upipe/urefcount.h"
@@ -40,12 +45,16 @@
 #include "upipe/ubuf_sound.h"
 #include "upipe/ubuf_sound_mem.h"
 #include "upipe/ubuf_mem.h"
+#include "upipe/ubuf_block.h"
+#include "upipe/ubuf_block_mem.h"
 
 #include <stdio.h>
 #include <stdlib.h>
 #include <string.h>
 #include <stdint.h>
 #include <inttypes.h>
+#include <signal.h>
+#include <unistd.h>
 
 /* ------------------------------------------------------------------------ */
 /* guard-zoned umem manager                                                 */
@@ -161,12 +170,14 @@ static struct umem_mgr *plain_umem_mgr; /* for dictionaries */
 static struct udict_mgr *udict_mgr;
 static struct uref_mgr *uref_mgr;
 static struct ubuf_mgr *mgr = NULL;
+static struct ubuf_mgr *block_mgr = NULL; /* for the views of planes */
 static int mgr_sound = 0;
 static int mgr_np = 0;
 static char plane_names[MAX_PLANES][32];
 
 static struct ubuf *handles[MAX_HANDLES];
 static int handle_area[MAX_HANDLES];
+static int handle_view[MAX_HANDLES];   /* 1: block view of a plane */
 
 static const char *errname(int err)
 {
@@ -196,6 +207,19 @@ static void mgr_drop(void)
     if (mgr != NULL) {
         ubuf_mgr_release(mgr);
         mgr = NULL;
+    }
+    if (block_mgr != NULL) {
+        ubuf_mgr_release(block_mgr);
+        block_mgr = NULL;
+    }
+}
+
+static void block_mgr_make(int pool)
+{
+    block_mgr = ubuf_block_mem_mgr_alloc(pool, pool, umem_mgr, 0, 0, 0, 0);
+    if (block_mgr == NULL) {
+        fprintf(stderr, "HARNESS: block manager set-up failed\n");
+        exit(3);
     }
 }
 
@@ -279,8 +303,23 @@ static int inside(struct area *a, long long off, long nc, long nl,
     return end <= a->size;
 }
 
+/* A command of the code under test that does not return must cost seconds,
+ * not the time-out of the whole batch: every command runs under an alarm; on
+ * expiry the process exits with status 5 WITHOUT a result line for that
+ * command, which the check reads as "this command hung" (the results of the
+ * earlier commands are already flushed). */
+static void on_alarm(int sig)
+{
+    (void)sig;
+    _exit(5);
+}
+
 int main(int argc, char **argv)
 {
+    unsigned alarm_s = 10;
+    if (getenv("REPLAY_ALARM_S") != NULL && atoi(getenv("REPLAY_ALARM_S")) > 0)
+        alarm_s = atoi(getenv("REPLAY_ALARM_S"));
+    signal(SIGALRM, on_alarm);
     umem_mgr = gumem_mgr_init();
     plain_umem_mgr = umem_alloc_mgr_alloc();
     udict_mgr = udict_inline_mgr_alloc(4, plain_umem_mgr, -1, -1);
@@ -292,10 +331,11 @@ int main(int argc, char **argv)
     setvbuf(stdout, NULL, _IOFBF, 1 << 16);
 
     char line[1024];
-    while (fflush(stdout), fgets(line, sizeof(line), stdin) != NULL) {
+    while (fflush(stdout), alarm(0), fgets(line, sizeof(line), stdin) != NULL) {
         char cmd[32];
         if (sscanf(line, "%31s", cmd) != 1 || cmd[0] == '#')
             continue;
+        alarm(alarm_s);
 
         if (!strcmp(cmd, "skew")) {
             unsigned n;
@@ -340,6 +380,7 @@ int main(int argc, char **argv)
                 mgr = ubuf_mem_mgr_alloc_from_flow_def(pool, pool, umem_mgr,
                                                        flow_def);
                 uref_free(flow_def);
+                block_mgr_make(pool);
                 mp = fmt->macropixel;
                 mgr_np = fmt->nb_planes;
                 printf("%s kind=pic mp=%d np=%d pl=", mgr ? "ok" : "null", mp,
@@ -364,6 +405,7 @@ int main(int argc, char **argv)
                     printf("null\n");
                     continue;
                 }
+                block_mgr_make(pool);
                 mgr_np = np;
                 char *s = arg;
                 printf("ok kind=pic mp=%d np=%d pl=", mp, np);
@@ -398,6 +440,7 @@ int main(int argc, char **argv)
                 printf("null\n");
                 continue;
             }
+            block_mgr_make(pool);
             mgr_np = np;
             for (int p = 0; p < np; p++) {
                 snprintf(plane_names[p], sizeof(plane_names[p]), "ch%d", p);
@@ -431,6 +474,7 @@ int main(int argc, char **argv)
             }
             handles[h] = ubuf;
             handle_area[h] = last_area;
+            handle_view[h] = 0;
             printf("ok area=%d size=%zu basemod=%u\n", last_area,
                    areas[last_area].size,
                    (unsigned)((uintptr_t)areas[last_area].buf % 64));
@@ -447,6 +491,7 @@ int main(int argc, char **argv)
                 continue;
             }
             handle_area[h] = handle_area[src];
+            handle_view[h] = handle_view[src];
             printf("ok\n");
 
         } else if (!strcmp(cmd, "free")) {
@@ -469,7 +514,7 @@ int main(int argc, char **argv)
                                &hsize, &vsize) != 5)
                 goto syntax;
             if (h < 0 || h >= MAX_HANDLES || handles[h] == NULL ||
-                sound != mgr_sound)
+                handle_view[h] || sound != mgr_sound)
                 goto syntax;
             int err = sound ? ubuf_sound_resize(handles[h], hskip, hsize)
                 : ubuf_pic_resize(handles[h], hskip, vskip, hsize, vsize);
@@ -480,6 +525,16 @@ int main(int argc, char **argv)
             if (sscanf(line, "%*s %d", &h) != 1 || h < 0 ||
                 h >= MAX_HANDLES || handles[h] == NULL)
                 goto syntax;
+            if (handle_view[h]) {
+                size_t bs = 0;
+                int berr = ubuf_block_size(handles[h], &bs);
+                if (!ubase_check(berr))
+                    printf("%s\n", errname(berr));
+                else
+                    printf("ok W=%zu H=1 mp=1\n",
+                           bs > 0x3fffffff ? (size_t)0x3fffffff : bs);
+                continue;
+            }
             struct pgeo g;
             int err = plane_geo(handles[h], 0, &g);
             if (!ubase_check(err))
@@ -499,7 +554,7 @@ int main(int argc, char **argv)
                                &vo, &hs, &vs, mode) != 7)
                 goto syntax;
             if (h < 0 || h >= MAX_HANDLES || handles[h] == NULL ||
-                p < 0 || p >= mgr_np || sound != mgr_sound)
+                handle_view[h] || p < 0 || p >= mgr_np || sound != mgr_sound)
                 goto syntax;
             uint8_t *ptr = NULL;
             int err = do_map(handles[h], p, ho, vo, hs, vs, mode[0] == 'w',
@@ -545,7 +600,8 @@ int main(int argc, char **argv)
             if (fill ? sscanf(line, "%*s %d %d", &h, &k) != 2
                      : sscanf(line, "%*s %d", &h) != 1)
                 goto syntax;
-            if (h < 0 || h >= MAX_HANDLES || handles[h] == NULL)
+            if (h < 0 || h >= MAX_HANDLES || handles[h] == NULL ||
+                handle_view[h])
                 goto syntax;
             struct ubuf *ubuf = handles[h];
             struct area *a = &areas[handle_area[h]];
@@ -604,7 +660,7 @@ int main(int argc, char **argv)
             int h, p, x, y;
             if (sscanf(line, "%*s %d %d %d %d", &h, &p, &x, &y) != 4 ||
                 h < 0 || h >= MAX_HANDLES || handles[h] == NULL ||
-                p < 0 || p >= mgr_np)
+                handle_view[h] || p < 0 || p >= mgr_np)
                 goto syntax;
             struct ubuf *ubuf = handles[h];
             struct area *a = &areas[handle_area[h]];
@@ -629,6 +685,152 @@ int main(int argc, char **argv)
                 printf("\n");
             }
             do_unmap(ubuf, p, x, y, hs, vs);
+
+        } else if (!strcmp(cmd, "poke")) {
+            int h, p, x, y, k;
+            if (sscanf(line, "%*s %d %d %d %d %d", &h, &p, &x, &y, &k) != 5 ||
+                h < 0 || h >= MAX_HANDLES || handles[h] == NULL ||
+                handle_view[h] || p < 0 || p >= mgr_np)
+                goto syntax;
+            struct ubuf *ubuf = handles[h];
+            struct area *a = &areas[handle_area[h]];
+            struct pgeo g;
+            int err = plane_geo(ubuf, p, &g);
+            uint8_t *ptr = NULL;
+            int hs = mgr_sound ? 1 : g.mp * g.hsub, vs = mgr_sound ? -1 : g.vsub;
+            if (ubase_check(err))
+                err = do_map(ubuf, p, x, y, hs, vs, 1, &ptr);
+            if (!ubase_check(err)) {
+                printf("%s\n", errname(err));
+                continue;
+            }
+            long long off = (long long)((intptr_t)ptr - (intptr_t)a->buf);
+            if (!inside(a, off, 1, 1, g.stride, g.mps))
+                printf("oob off=%lld mps=%d size=%zu\n", off, g.mps, a->size);
+            else {
+                for (int b = 0; b < g.mps; b++)
+                    ptr[b] = code(k, p, 0, 0, b);
+                printf("ok off=%lld mps=%d size=%zu\n", off, g.mps, a->size);
+            }
+            do_unmap(ubuf, p, x, y, hs, vs);
+
+        } else if (!strcmp(cmd, "view")) {
+            int h, src, p;
+            if (sscanf(line, "%*s %d %d %d", &h, &src, &p) != 3 ||
+                h < 0 || h >= MAX_HANDLES || src < 0 || src >= MAX_HANDLES ||
+                handles[h] != NULL || handles[src] == NULL ||
+                handle_view[src] || p < 0 || p >= mgr_np || block_mgr == NULL)
+                goto syntax;
+            struct area *a = &areas[handle_area[src]];
+            struct pgeo g;
+            int gerr = plane_geo(handles[src], p, &g);
+            struct ubuf *ubuf = mgr_sound ?
+                ubuf_block_mem_alloc_from_sound(block_mgr, handles[src],
+                                                plane_names[p]) :
+                ubuf_block_mem_alloc_from_pic(block_mgr, handles[src],
+                                              plane_names[p]);
+            if (ubuf == NULL || !ubase_check(gerr)) {
+                if (ubuf != NULL)
+                    ubuf_free(ubuf);
+                printf("null\n");
+                continue;
+            }
+            handles[h] = ubuf;
+            handle_area[h] = handle_area[src];
+            handle_view[h] = 1;
+            size_t bs = 0;
+            ubuf_block_size(ubuf, &bs);
+            long long off = 0, d = 0;
+            int sz = -1;
+            const uint8_t *ptr = NULL;
+            if (bs > 0 && ubase_check(ubuf_block_read(ubuf, 0, &sz, &ptr))) {
+                off = (long long)((intptr_t)ptr - (intptr_t)a->buf);
+                uint8_t *wptr = NULL;
+                if (ubase_check(do_map(handles[src], p, 0, 0, -1, -1, 0,
+                                       &wptr))) {
+                    d = (long long)((intptr_t)ptr - (intptr_t)wptr);
+                    do_unmap(handles[src], p, 0, 0, -1, -1);
+                }
+                ubuf_block_unmap(ubuf, 0);
+            }
+            if (off > 0x3fffffff) off = 0x3fffffff;
+            if (off < -0x3fffffff) off = -0x3fffffff;
+            if (d > 0x3fffffff) d = 0x3fffffff;
+            if (d < -0x3fffffff) d = -0x3fffffff;
+            printf("ok off=%lld size=%zu stride=%zu d=%lld asize=%zu\n", off,
+                   bs > 0x3fffffff ? (size_t)0x3fffffff : bs,
+                   mgr_sound ? (size_t)0 : g.stride, d, a->size);
+
+        } else if (!strcmp(cmd, "bread")) {
+            int h;
+            if (sscanf(line, "%*s %d", &h) != 1 || h < 0 ||
+                h >= MAX_HANDLES || handles[h] == NULL || !handle_view[h])
+                goto syntax;
+            struct area *a = &areas[handle_area[h]];
+            size_t bs = 0;
+            int err = ubuf_block_size(handles[h], &bs);
+            if (!ubase_check(err)) {
+                printf("%s\n", errname(err));
+                continue;
+            }
+            if (bs == 0) {
+                printf("ok size=0 bytes=\n");
+                continue;
+            }
+            int sz = -1;
+            const uint8_t *ptr = NULL;
+            err = ubuf_block_read(handles[h], 0, &sz, &ptr);
+            if (!ubase_check(err)) {
+                printf("%s\n", errname(err));
+                continue;
+            }
+            long long off = (long long)((intptr_t)ptr - (intptr_t)a->buf);
+            if (sz < 0 || (size_t)sz != bs || !inside(a, off, sz, 1, 0, 1))
+                printf("oob off=%lld size=%zu got=%d asize=%zu\n", off, bs, sz,
+                       a->size);
+            else {
+                printf("ok size=%zu bytes=", bs);
+                for (int i = 0; i < sz; i++)
+                    printf("%02x", ptr[i]);
+                printf("\n");
+            }
+            ubuf_block_unmap(handles[h], 0);
+
+        } else if (!strcmp(cmd, "bpoke")) {
+            int h, i, v;
+            if (sscanf(line, "%*s %d %d %d", &h, &i, &v) != 3 || h < 0 ||
+                h >= MAX_HANDLES || handles[h] == NULL || !handle_view[h])
+                goto syntax;
+            struct area *a = &areas[handle_area[h]];
+            int sz = 1;
+            uint8_t *ptr = NULL;
+            int err = ubuf_block_write(handles[h], i, &sz, &ptr);
+            if (!ubase_check(err)) {
+                printf("%s\n", errname(err));
+                continue;
+            }
+            long long off = (long long)((intptr_t)ptr - (intptr_t)a->buf);
+            if (sz != 1 || !inside(a, off, 1, 1, 0, 1))
+                printf("oob off=%lld got=%d asize=%zu\n", off, sz, a->size);
+            else {
+                *ptr = (uint8_t)v;
+                printf("ok off=%lld\n", off);
+            }
+            ubuf_block_unmap(handles[h], i);
+
+        } else if (!strcmp(cmd, "fmts")) {
+            int n = 0;
+            for (unsigned i = 0; i < UBASE_ARRAY_SIZE(uref_pic_flow_formats);
+                 i++) {
+                const struct uref_pic_flow_format *f = uref_pic_flow_formats[i];
+                printf("fmt %s %d %d ", f->name, f->macropixel, f->nb_planes);
+                for (int p = 0; p < f->nb_planes; p++)
+                    printf("%s%d:%d:%d", p ? "," : "", f->planes[p].hsub,
+                           f->planes[p].vsub, f->planes[p].mpixel_size);
+                printf("\n");
+                n++;
+            }
+            printf("ok n=%d\n", n);
 
         } else if (!strcmp(cmd, "end")) {
             /* end of an execution: everything is released; the table of
